@@ -65,4 +65,10 @@ EmitTxn(x) == /\ \A o \in TxnOps : PrintT(<<"CASE", ToJson([mode |-> "txn", t |-
               /\ \A o \in TxnSeeds : \A c \in Corrupt(o) : PrintT(<<"CASE", ToJson([mode |-> "txn", t |-> "Operations", tree |-> A(<<c>>)])>>)
               /\ \A o \in TxnSeeds : \A c \in {A(<<>>), A(<<o, Z>>), A(<<o, A(<<>>)>>), A(<<O([op |-> S("insert"), table |-> S("T"), row |-> O([c1 |-> N(9), c4 |-> N(1), c5 |-> S("m")])]), o>>)} :
                     PrintT(<<"CASE", ToJson([mode |-> "txn", t |-> "Operations", tree |-> c])>>)
+
+\* ---- monitor requests, sound and corrupted, each followed by a commit that concerns the monitored table
+MonReqsT == {O([T |-> r]) : r \in MonitorRequests} \cup {O(<<>>), O([T |-> O(<<>>), Nosuch |-> O([columns |-> A(<<S("c1")>>)])])}
+EmitMon(x) == /\ \A m \in MonReqsT : PrintT(<<"CASE", ToJson([mode |-> "mon", t |-> "MonitorRequests", tree |-> m])>>)
+              /\ \A m \in {O([T |-> r]) : r \in {O([columns |-> A(<<S("c1"), S("c2")>>), select |-> O([initial |-> B(FALSE)])]), O([select |-> O([modify |-> B(FALSE), delete |-> B(TRUE)])])}} :
+                    \A c \in Corrupt(m) : PrintT(<<"CASE", ToJson([mode |-> "mon", t |-> "MonitorRequests", tree |-> c])>>)
 =============================================================================
